@@ -427,6 +427,26 @@ func c04podgroup(c *Ctx) {
 	}
 }
 
+// strictModeFact: the truth value of a comparison of getGangMode() with a mode constant when the mode is Strict.
+func strictModeFact(b *ssa.BinOp, mode ssa.Value) (an.Abs, bool) {
+	other := b.Y
+	if other == mode {
+		other = b.X
+	}
+	s, ok := constString(other)
+	if !ok || (b.Op != token.EQL && b.Op != token.NEQ) {
+		return an.Unknown, false
+	}
+	eq := s == "Strict"
+	if b.Op == token.NEQ {
+		eq = !eq
+	}
+	if eq {
+		return an.True, true
+	}
+	return an.False, true
+}
+
 func c04strict(c *Ctx) {
 	r := c.R
 	r.Rule("PATH: in PodGroupManager.Unreserve, from behind delAssumedPod with {isGangOnceResourceSatisfied()==false, getGangMode()==Strict}, no return is reachable without passing rejectGangGroupById; same in AfterPostFilter from behind the once-satisfied test")
@@ -454,9 +474,11 @@ func c04strict(c *Ctx) {
 				}
 			case "getGangMode":
 				for _, ref := range *cl.Value().Referrers() {
-					if b, ok := ref.(*ssa.BinOp); ok && b.Op == token.EQL {
-						facts[b] = an.True
-						nMode++
+					if b, ok := ref.(*ssa.BinOp); ok {
+						if a, ok := strictModeFact(b, cl.Value()); ok {
+							facts[b] = a // the mode is the strict one
+							nMode++
+						}
 					}
 				}
 			case "delAssumedPod":
@@ -503,8 +525,10 @@ func c04strict(c *Ctx) {
 				}
 			case "getGangMode":
 				for _, ref := range *cl.Value().Referrers() {
-					if b, ok := ref.(*ssa.BinOp); ok && b.Op == token.EQL {
-						facts2[b] = an.True
+					if b, ok := ref.(*ssa.BinOp); ok {
+						if a, ok := strictModeFact(b, cl.Value()); ok {
+							facts2[b] = a
+						}
 					}
 				}
 			}
